@@ -598,7 +598,7 @@ impl Calendar {
             {
                 Some(era::JAPANESE_INVERSE_ERA)
             }
-            AnyCalendarKind::Japanese if *era_alias == tinystr!(19, "mejei") => {
+            AnyCalendarKind::Japanese if *era_alias == tinystr!(19, "meiji") => {
                 Some(era::MEJEI_ERA)
             }
             AnyCalendarKind::Japanese if *era_alias == tinystr!(19, "reiwa") => {
